@@ -236,3 +236,80 @@ def trace_validation(ctx, pid, quick):
     ctx.require(verdicts and not any(v['accepted'] for v in verdicts.values()),
                 'a spec with the wrong initial window accepted a recorded '
                 'trace')
+
+
+# ---------------------------------------------------------------------------
+# both directions at once: specs/Lifecycle with flow control (Win chunks per
+# direction) - data queued behind an exhausted window, EOF / CLOSE queued
+# behind the data, WINDOW_ADJUST arriving in every receive state (after the
+# peer's EOF, with that EOF still parked behind buffered data, ...)
+# ---------------------------------------------------------------------------
+
+def duplex_flow(ctx, pid, quick, clauses, seed):
+    """Lifecycle behaviours with flow control replayed into a real pair; the
+    findings whose clause is in `clauses` belong to property `pid`."""
+    from checks import c09
+    from harness.drivers import lifecycle
+    flow = dict(WithData='TRUE', Win=2, ConnOps='FALSE', Cuts=0)
+    jobs = []
+    traces, d = c09.sim(f'{pid.lower()}_lcflow', dict(flow, MaxOps=9),
+                        10 if quick else 150, 90, seed)
+    ctx.require(traces, 'no Lifecycle behaviours with flow control')
+    jobs += [('flow', steps, None) for steps in traces if len(steps) >= 2]
+    # every distinct (state, last operation) of the bounded model has one
+    # shortest script; those in which a WINDOW_ADJUST is delivered are the
+    # ones that exercise the window
+    tg = f'{pid.lower()}_lccov_{os.getpid()}'
+    cfg, d = c09.write_cfg(f'_{tg}.cfg', dict(flow, MaxOps=6 if quick else 7),
+                           invariants=['EmitScript'], view=True,
+                           viewname='viewL')
+    scripts, res = tlc.bfs_scripts(c09.SPEC, 'Lifecycle', cfg, tg)
+    ctx.require_tlc_ok(f'Lifecycle flow (script emission) for {pid}', res)
+    tlc.cleanup(tg)
+    os.remove(os.path.join(c09.SPEC, cfg))
+    adj = [(sc, st) for sc, st in scripts
+           if any(l[0] == 'deliver' and l[2] == 'ADJ' for l in sc)]
+    ctx.require(len(adj) > 50, f'too few scripts with WINDOW_ADJUST '
+                f'({len(adj)} of {len(scripts)})')
+    # spread over the list (BFS order: short scripts first)
+    keep = 220 if quick else 4000
+    step = max(1, len(adj) // keep)
+    off = seed % step
+    jobs += [('cover', [(l, None) for l in sc], st)
+             for sc, st in adj[off::step][:keep]]
+    total = 0
+    for kind, steps, final in jobs:
+        r = lifecycle.replay(steps, [1], [], final=final, win=2)
+        total += 1
+        ctx.count(('duplex', kind, tuple(map(str, r['script']))),
+                  nontrivial=len(r['script']) > 3)
+        mine = [b for b in r['l1'] if b.split(':')[0] in clauses]
+        if mine:
+            ctx.violation({'module': 'Lifecycle', 'part': 'duplex',
+                           'clauses': sorted({c.split(':')[0] for c in mine})},
+                          '; '.join(mine[:3]),
+                          replay={'kind': 'duplex', 'script': r['script'],
+                                  'chans': [1], 'reject': [], 'win': 2})
+        elif r['diverged']:
+            ctx.divergence(f'duplex {kind}: {r["diverged"]} script='
+                           f'{r["script"]}')
+    ctx.traces_validated(total)
+    ctx.coverage['duplex_scripts'] = (len(adj), len(scripts))
+    return total
+
+
+def duplex_replay(ctx, rp, sig, clauses):
+    from harness.drivers import lifecycle
+    steps = []
+    for l in rp['script']:
+        if l[0] == 'chunk':
+            steps.append((l[:3], None))
+            steps += [(['deliver', l[1], t, 0], None) for t in l[3]]
+        else:
+            steps.append((l, None))
+    r = lifecycle.replay(steps, rp['chans'], rp['reject'], win=rp['win'])
+    mine = [b for b in r['l1'] if b.split(':')[0] in clauses]
+    print('l1:', r['l1'])
+    ctx.count(('replay', 'duplex'))
+    if mine:
+        ctx.violation(sig, '; '.join(mine[:3]), replay=rp)
